@@ -104,6 +104,10 @@ type Store struct {
 	RV    int64
 	UIDs  int64
 	Clock int64
+	// Graceful: kinds whose objects outlive their DELETE without any metadata finalizer (a Pod in
+	// graceful termination, a Namespace held by spec.finalizers): the delete only sets
+	// deletionTimestamp, the object goes away when FinishGraceful is called for it.
+	Graceful map[schema.GroupKind]bool
 	// Admission: per object key, how admission answers writes and dry runs for it right now
 	// ("noreason", "internal", "unavailable", "toomany"); absent = normal
 	Admission map[Key]string
@@ -120,7 +124,7 @@ func NewStore(kinds []KindInfo) *Store {
 
 // Clone deep-copies the store (kinds are shared: they are immutable).
 func (s *Store) Clone() *Store {
-	n := &Store{Objs: make(map[Key]*Obj, len(s.Objs)), Kinds: s.Kinds, Incs: make(map[Key]int, len(s.Incs)), RV: s.RV, UIDs: s.UIDs, Clock: s.Clock}
+	n := &Store{Objs: make(map[Key]*Obj, len(s.Objs)), Kinds: s.Kinds, Incs: make(map[Key]int, len(s.Incs)), RV: s.RV, UIDs: s.UIDs, Clock: s.Clock, Graceful: s.Graceful}
 	if len(s.Admission) > 0 {
 		n.Admission = make(map[Key]string, len(s.Admission))
 		for k, v := range s.Admission {
@@ -134,6 +138,18 @@ func (s *Store) Clone() *Store {
 		n.Incs[k] = v
 	}
 	return n
+}
+
+// FinishGraceful removes a terminating object of a graceful kind that no finalizer holds (the
+// kubelet / namespace controller is done with it). It reports whether it removed something.
+func (s *Store) FinishGraceful(k Key) bool {
+	o := s.Objs[k]
+	if o == nil || !s.Graceful[k.GK()] || !Terminating(o.Content) || len(Finalizers(o.Content)) > 0 {
+		return false
+	}
+	delete(s.Objs, k)
+	s.nextRV()
+	return true
 }
 
 // SortedKeys returns all keys in canonical order.
